@@ -284,6 +284,11 @@ class World(object):
         self.guard(lambda: clock.fire(dc))
         return self.emit({"op": "fire", "tm": dc.vid})
 
+    def pokeid(self, n):
+        """test-only placement of the factory's identifier counter (C17 names this placement)"""
+        self.f.id = n
+        return self.emit({"op": "pokeid", "v": n})
+
     def idle(self, dt):
         clock.advance(dt)
         return self.emit({"op": "idle", "dt": dt})
